@@ -8,6 +8,7 @@ D3 constructors: every argument-shape composition (scalars, vec1, vec2, vec3, ve
    element-type conversions are per lane.
 """
 import itertools
+import re
 from laneflow import term as tm
 from laneflow import gtypes as G
 from laneflow import runner as R
@@ -85,6 +86,27 @@ def swizzle_cases(tier):
                                         want_w[lane] = L.in_term('w', ot, idx.index(lane)) if lane in idx else L.in_term('v', vt, lane)
                                     cs.append(R.Case('swizzle.%s<%s>.%s=' % (form, vt.tag, nm), [kw],
                                                      sel_judge('swizzle.%s<%s>.%s=w' % (form, vt.tag, nm), 'swizzle_write', kw, vt, want_w)))
+                                    # the other write forms of the same swizzle: scalar fill, the four compound assignments, and (for a swizzle of the
+                                    # whole vector) assignment / compound assignment FROM THE VECTOR ITSELF, where source and destination alias
+                                    sct = G.scalar(T)
+                                    ops = [('fill', 'o[%d].%s = *s;', None)] + [(o_, 'o[%%d].%%s %s= *w;' % o_, o_) for o_ in '+-*/']
+                                    if n == L_:
+                                        ops += [('self=', 'o[%d].%s = o[%d];', '='), ('self+=', 'o[%d].%s += o[%d];', '+'), ('self*=', 'o[%d].%s *= o[%d];', '*')]
+                                    arrw = G.Ty('arr', vt.cpp, vt.elem, vt.size * len(ops), {(i, j): i * vt.size + vt.lanes[j] for i in range(len(ops)) for j in range(L_)}, T, (len(ops), L_))
+                                    body = ' '.join(('o[%d] = *v; ' % i) + (fmt % ((i, nm, i) if fmt.count('%d') == 2 else (i, nm))) for i, (lab, fmt, o_) in enumerate(ops))
+                                    kc = K('%s_wops_%s_%s' % (form, vt.tag, nm), [Par('o', arrw, False), Par('v', vt), Par('w', ot), Par('s', sct)], body, cfg)
+                                    want_c = {}
+                                    for i, (lab, fmt, o_) in enumerate(ops):
+                                        for lane in range(L_):
+                                            old_ = L.in_term('v', vt, lane)
+                                            if lane not in idx:
+                                                want_c[(i, lane)] = old_
+                                                continue
+                                            j = idx.index(lane)
+                                            src = L.in_term('s', sct, 0) if lab == 'fill' else L.in_term('v', vt, j) if lab.startswith('self') else L.in_term('w', ot, j)
+                                            want_c[(i, lane)] = src if o_ in (None, '=') else _arith(sct, o_, old_, src)
+                                    cs.append(R.Case('swizzle.%s<%s>.%s op=' % (form, vt.tag, nm), [kc],
+                                                     label_ops(sel_judge('swizzle.%s<%s>.%s' % (form, vt.tag, nm), 'swizzle_write_ops', kc, arrw, want_c), [o[0] for o in ops])))
     # SIMD shuffle specialisations: aligned vec4 float / int (and double under AVX in thorough)
     simd = [(CFG_OP, 'sse2', ['float', 'int'])]
     if tier == 'thorough':
@@ -113,6 +135,24 @@ def swizzle_cases(tier):
                 want = {(i, j): L.in_term('v', vt, idx[j]) for i, (nm, idx) in enumerate(nl) for j in range(n)}
                 cs.append(R.Case('swizzle.gtx<%s>.%d' % (vt.tag, n), [k], label_judge(sel_judge('swizzle.gtx<%s>' % vt.tag, 'swizzle_free_function', k, arr, want), nl)))
     return cs
+
+
+def _arith(sc, o_, a, b):
+    if sc.isfloat:
+        return tm.arith({'+': 'fadd', '-': 'fsub', '*': 'fmul', '/': 'fdiv'}[o_], a, b)
+    return tm.arith({'+': 'add', '-': 'sub', '*': 'mul', '/': 'sdiv' if sc.signed else 'udiv'}[o_], a, b)
+
+
+def label_ops(j, labels):
+    """rewrite obligation ids '(i, lane)' into 'form[lane]'"""
+    def judge(ctx):
+        res = j(ctx)
+        for r in res:
+            m = re.search(r'\[\((\d+), (\d+)\)\]$', r['id'])
+            if m:
+                r['id'] = r['id'][:m.start()] + ' %s [%s]' % (labels[int(m.group(1))], m.group(2))
+        return res
+    return judge
 
 
 def label_judge(j, nl):
